@@ -44,6 +44,7 @@ var poolOpts = bridge.GenOpts{
 func c04Opts() bridge.GenOpts {
 	o := poolOpts
 	o.HighCounters = true
+	o.MaybeNoPrices = true
 	o.Weights = map[string]int{"xtick": 14, "send2": 10, "cancel": 10, "burst": 1, "reqbatch": 10}
 	o.EthTimeout = []uint64{60000, 60000, 150000}
 	o.TimeoutMs = []uint64{20000, 60000, 20001, 86400000 - 1}
@@ -147,6 +148,7 @@ func TestC13(t *testing.T) {
 	o.BlockTimes = true
 	o.ByzHeights = true
 	o.HighCounters = true
+	o.MaybeNoPrices = true
 	(&pbt.Check{
 		ID:   "C13",
 		Rule: "batch histories on ethereum/bsc/minter with several tokens, generated external clock, executions in any admissible order, observed heights around each timeout; non-trivial = an execution or a BeginBlock processed while >=3 batches of >=2 tokens were pending and a batch was withdrawn or executed in the history; distinct = distinct case JSON",
